@@ -5,6 +5,7 @@ cd "$(dirname "$0")" || exit 2
 mkdir -p bin evidence replays
 rc=0
 go build -o bin/fakessh ./cmd/fakessh || rc=2
+go test -race -tags verif -vet=off -c -o bin/race.test ./checks/race || rc=2
 for d in checks/c*/; do
   id=$(basename "$d" | tr 'a-z' 'A-Z')
   go test -c -tags verif -vet=off -o "bin/$id.test" "./$d" || rc=2
